@@ -8,6 +8,7 @@ import (
 	"github.com/gebn/bmc/pkg/dcmi"
 	"github.com/gebn/bmc/pkg/ipmi"
 
+	"verif/env"
 	"verif/ref"
 	"verif/rep"
 )
@@ -35,6 +36,9 @@ type c16CS struct {
 	// Raw, if set, is served instead of the encoding of Recs (malformed data).
 	Raw       []byte `json:"raw,omitempty"`
 	Malformed bool   `json:"malformed,omitempty"`
+	// BusyAt: the BusyAt-th request (1-based) is answered "node busy" once; the
+	// enumeration must come out the same (0: never)
+	BusyAt int `json:"busy_at,omitempty"`
 }
 
 type csEntry struct {
@@ -81,6 +85,9 @@ func c16CipherSuites(c c16CS) (string, string, string) {
 		if sends > 200 {
 			w.Cancel()
 		}
+		if sends == c.BusyAt {
+			return []envAnswer{env.Code("node-busy", 0xC0)}
+		}
 		return []envAnswer{envHonest()}
 	}
 	p := guard(func() { got, err = bmc.RetrieveSupportedCipherSuites(w.Ctx, w.Conn) })
@@ -91,7 +98,15 @@ func c16CipherSuites(c c16CS) (string, string, string) {
 		return "C16/ciphersuites/does-not-terminate", fmt.Sprintf("more than 200 requests for %d bytes of record data", len(data)), ""
 	}
 	// request log: list index 0,1,2,...
-	for i, rx := range w.BMC.Log {
+	log := w.BMC.Log
+	if c.BusyAt > 0 && c.BusyAt <= len(log) {
+		// the repeated request is the same request again
+		if c.BusyAt < len(log) && string(log[c.BusyAt-1].Raw) != string(log[c.BusyAt].Raw) {
+			return "C16/ciphersuites/request-not-repeated-after-node-busy", fmt.Sprintf("request %d was answered node busy; the next request % x differs from it % x", c.BusyAt, log[c.BusyAt].Raw, log[c.BusyAt-1].Raw), ""
+		}
+		log = append(append([]*ref.Rx{}, log[:c.BusyAt-1]...), log[c.BusyAt:]...)
+	}
+	for i, rx := range log {
 		if len(rx.Problems) > 0 {
 			return "C16/ciphersuites/malformed-request", fmt.Sprint(rx.Problems), ""
 		}
@@ -112,8 +127,8 @@ func c16CipherSuites(c c16CS) (string, string, string) {
 	if err != nil {
 		return "C16/ciphersuites/valid-list-rejected", fmt.Sprintf("%d bytes of valid record data (%d records): %v", len(data), len(c.Recs), err), ""
 	}
-	if len(w.BMC.Log) != wantReqs {
-		return "C16/ciphersuites/request-count", fmt.Sprintf("%d requests for %d bytes of data, want %d", len(w.BMC.Log), len(data), wantReqs), ""
+	if len(log) != wantReqs {
+		return "C16/ciphersuites/request-count", fmt.Sprintf("%d requests for %d bytes of data, want %d", len(log), len(data), wantReqs), ""
 	}
 	want := csExpand(c.Recs)
 	if len(got) != len(want) {
@@ -138,6 +153,8 @@ type c16DCMI struct {
 	// and ErrCode which one (0 = 0xC9)
 	ErrEnt  int `json:"errent,omitempty"`
 	ErrCode int `json:"errcode,omitempty"`
+	// BusyAt: as for cipher suites
+	BusyAt int `json:"busy_at,omitempty"`
 }
 
 var ipmiEnt = []byte{0x37, 0x03, 0x07}
@@ -199,6 +216,9 @@ func c16SensorInfo(c c16DCMI) (string, string, string) {
 		if sends > 2000 {
 			w.Cancel()
 		}
+		if sends == c.BusyAt {
+			return []envAnswer{env.Code("node-busy", 0xC0)}
+		}
 		return []envAnswer{envHonest()}
 	}
 	var si *dcmi.SensorInfo
@@ -226,7 +246,11 @@ func c16SensorInfo(c c16DCMI) (string, string, string) {
 	// request log: which entity families were queried, with which instance starts
 	queriedDCMI, stdTotal := false, 0
 	nextStart := map[byte]int{}
-	for _, rx := range w.BMC.Log[hs:] {
+	dlog := w.BMC.Log[hs:]
+	if c.BusyAt > 0 && c.BusyAt <= len(dlog) {
+		dlog = append(append([]*ref.Rx{}, dlog[:c.BusyAt-1]...), dlog[c.BusyAt:]...)
+	}
+	for _, rx := range dlog {
 		if len(rx.Problems) > 0 {
 			return "C16/dcmi/malformed-request", fmt.Sprint(rx.Problems), ""
 		}
@@ -293,7 +317,7 @@ func runC16(r *rep.R) {
 			return
 		}
 		k, msg, out := c16CipherSuites(c)
-		r.Eval(rep.H("cs", fmt.Sprint(c.Recs), c.Raw), true)
+		r.Eval(rep.H("cs", fmt.Sprint(c.Recs), c.Raw, c.BusyAt), true)
 		r.Trace()
 		if k != "" {
 			r.Outcome("violation")
@@ -381,6 +405,15 @@ func runC16(r *rep.R) {
 			doCS(c16CS{Recs: recs})
 		}
 	}
+	// one request of the enumeration answered "node busy" once: the list is the same
+	for _, recs := range [][]ref.CSRecord{{shapes[5]}, {shapes[5], shapes[21], shapes[10]}, {shapes[15], shapes[31], shapes[15], shapes[31], shapes[15], shapes[31]}, {shapes[3], shapes[3], shapes[3], shapes[3]}} {
+		for at := 1; at <= len(csData(recs...))/16+1; at++ {
+			doCS(c16CS{Recs: recs, BusyAt: at})
+		}
+	}
+	// zero padding after the records (a chunk filled up with 00): not record data
+	doCS(c16CS{Raw: append(csData(shapes[5], shapes[21]), 0, 0, 0), Malformed: true})
+	doCS(c16CS{Raw: append(csData(shapes[5]), make([]byte, 16-len(csData(shapes[5])))...), Malformed: true})
 	// malformed data
 	good := csData(shapes[5], shapes[21], shapes[10])
 	doCS(c16CS{Raw: append([]byte{0x00}, good...), Malformed: true})
@@ -433,6 +466,15 @@ func runC16(r *rep.R) {
 						continue
 					}
 					doD(c16DCMI{Count: count, Page: page, Entity: ent, Family: fam, OtherToo: (count+page+ent)%2 == 0, ErrEnt: (count + page) % 3, ErrCode: []int{0xC9, 0xC1, 0xCB, 0xD4, 0xFF}[(count+ent)%5]})
+				}
+			}
+		}
+	}
+	for _, cnt := range []int{1, 2, 5, 9} {
+		for _, page := range []int{1, 2, 8} {
+			for fam := 0; fam < 2; fam++ {
+				for at := 1; at <= 12; at++ {
+					doD(c16DCMI{Count: cnt, Page: page, Entity: at % 3, Family: fam, OtherToo: true, BusyAt: at})
 				}
 			}
 		}
